@@ -102,4 +102,39 @@ theorem exists_as_semi (key : A → K) (S : K → List B) (outer : List A) :
   simp [perRow]
   cases S (key a) <;> simp
 
+/-- The decorrelated plan with the comparison used for the join back as a parameter. -/
+def viaMagicWith {A B K : Type} [DecidableEq K] (cmp : K → K → Bool) (key : A → K) (S : K → List B) (outer : List A) : List (A × B) :=
+  let D := distinctKeys (outer.map key)
+  let memo : List (K × List B) := D.map fun k => (k, S k)
+  outer.flatMap fun a => (memo.filter fun e => cmp e.1 (key a)).flatMap fun e => e.2.map fun b => (a, b)
+
+/-- SQL `=` on a nullable correlation value: NULL compared with anything is not TRUE. -/
+def sqlEq : Option Nat → Option Nat → Bool
+  | some x, some y => x == y
+  | _, _ => false
+
+/-- IS NOT DISTINCT FROM: NULL matches NULL. -/
+def notDistinct : Option Nat → Option Nat → Bool
+  | some x, some y => x == y
+  | none, none => true
+  | _, _ => false
+
+theorem notDistinct_eq (a b : Option Nat) : notDistinct a b = decide (a = b) := by
+  cases a <;> cases b <;> simp [notDistinct, Nat.beq_eq_true_eq, beq_iff_eq, decide_eq_decide]
+  all_goals (rename_i x y; by_cases h : x = y <;> simp [h])
+
+/-- Joining back with IS NOT DISTINCT FROM is the sound plan of `dependent_join_via_magic`. -/
+theorem join_back_not_distinct_sound {A B : Type} (key : A → Option Nat) (S : Option Nat → List B) (outer : List A) :
+    viaMagicWith notDistinct key S outer = perRow key S outer := by
+  rw [← dependent_join_via_magic]
+  unfold viaMagicWith viaMagic
+  simp only [notDistinct_eq]
+
+/-- **Joining back with `=` loses the outer rows whose correlation value is NULL** (the pinned
+commit's plan, F37): one outer row with a NULL correlation value whose subquery returns a row -
+nested evaluation returns the pair, the `=` plan returns nothing. -/
+theorem join_back_sql_eq_loses_null_rows :
+    viaMagicWith sqlEq (fun a : Option Nat => a) (fun _ => [1]) [none] = [] ∧
+      perRow (fun a : Option Nat => a) (fun _ => [1]) [none] = [(none, 1)] := by decide
+
 end GlareModel.Props.C09
